@@ -1,6 +1,8 @@
 package main
 
 import (
+	"sort"
+	"bytes"
 	"fmt"
 	"io"
 	"strconv"
@@ -45,6 +47,9 @@ func (c *runCtx) obsCase(kind string, x []byte, limit uint32) {
 		c.propfail("C01", fmt.Sprintf("Detect returns nil: limit=%d input=%s", limit, hx(x)))
 	} else {
 		chain = chainOf(m)
+	}
+	if pan == nil && m != nil && (c.caseNo%16 == 3 || len(x) == 0) {
+		c.agree(kind, x, limit, c.caseNo%128 == 3 || len(x) == 0)
 	}
 	c.watch("")
 	c.started.Store(0)
@@ -148,6 +153,69 @@ func runDetStream(c *runCtx) {
 			}
 			y[p] = byte(c.rng.Intn(256))
 			c.obsCase(s.kind+"+mut", y, 3072)
+		}
+	}
+	// the byte right behind an occurrence of a signature literal is where length / width / count fields live: boundary
+	// values there (all values in the thorough tier) - a loop or an index driven by such a field shows up as a hang
+	// (watchdog) or a panic
+	{
+		_, lits, _ := parseMagic("/repo")
+		var pool [][]byte
+		seenLit := map[string]bool{}
+		for _, ls := range lits {
+			for _, l := range ls {
+				if len(l) >= 2 && len(l) <= 16 && !seenLit[string(l)] {
+					seenLit[string(l)] = true
+					pool = append(pool, l)
+				}
+			}
+		}
+		sort.Slice(pool, func(i, j int) bool { return string(pool[i]) < string(pool[j]) })
+		vals := []byte{0x00, 0x01, 0x7F, 0x80, 0xFF}
+		if c.tier == "thorough" {
+			vals = vals[:0]
+			for v := 0; v < 256; v++ {
+				vals = append(vals, byte(v))
+			}
+		}
+		for _, s := range seeds {
+			x := s.data
+			if len(x) < 4 || len(x) > 6000 {
+				continue
+			}
+			win := x
+			if len(win) > 4200 {
+				win = win[:4200]
+			}
+			npos := 0
+			donePos := map[int]bool{}
+			for _, l := range pool {
+				if npos >= 4 {
+					break
+				}
+				if i := bytes.Index(win, l); i >= 0 && i+len(l) < len(x) && !donePos[i+len(l)] {
+					p := i + len(l)
+					donePos[p] = true
+					npos++
+					for _, v := range vals {
+						if x[p] == v {
+							continue
+						}
+						y := append([]byte{}, x...)
+						y[p] = v
+						c.obsCase(s.kind+"+after-lit", y, 3072)
+					}
+				}
+			}
+		}
+	}
+	// a byte-order mark in front of every kind of content: only the three text types may carry a charset
+	for i, s := range seeds {
+		if i%3 != 0 || len(s.data) > 3000 {
+			continue
+		}
+		for _, bm := range [][]byte{{0xEF, 0xBB, 0xBF}, {0xFF, 0xFE}, {0xFE, 0xFF}} {
+			c.obsCase(s.kind+"+bom", cat(bm, s.data), 3072)
 		}
 	}
 	// multi-match inputs (several siblings / levels accept at once)
